@@ -3,6 +3,7 @@
 package verifharness
 
 import (
+	"errors"
 	"context"
 	"fmt"
 	"sort"
@@ -280,6 +281,8 @@ func buildPolicies(st []PolD, li *liveInst) []failsafe.Policy[int] {
 }
 
 // ExecObs is what one execution showed.
+var errCallerCause = errors.New("verifharness: the caller's own cancellation cause")
+
 type ExecObs struct {
 	Res     int
 	Err     error
@@ -352,8 +355,20 @@ func runHistory(t *testing.T, inst InstD, reqs []ReqD) (obs []ExecObs, start int
 			} else if rq.ExtT > 0 && rq.ExtKind == "AsyncCancel" {
 				// ExecutionResult.Cancel() at the given instant (async entry points only)
 			} else if rq.ExtT > 0 {
+				// every other context carries a cause of the caller's own: the execution still reports the context's error
+				// (context.Canceled / context.DeadlineExceeded), not the cause
+				withCause := (rq.ExtT+int64(len(rq.Stack)))%2 == 0
 				if rq.ExtKind == "Deadline" {
-					ctx, cancel = context.WithDeadline(ctx, time.Now().Add(time.Duration(rq.ExtT)))
+					if withCause {
+						ctx, cancel = context.WithDeadlineCause(ctx, time.Now().Add(time.Duration(rq.ExtT)), errCallerCause)
+					} else {
+						ctx, cancel = context.WithDeadline(ctx, time.Now().Add(time.Duration(rq.ExtT)))
+					}
+				} else if withCause {
+					var cc context.CancelCauseFunc
+					ctx, cc = context.WithCancelCause(ctx)
+					cancel = func() { cc(errCallerCause) }
+					timer = time.AfterFunc(time.Duration(rq.ExtT), cancel)
 				} else {
 					ctx, cancel = context.WithCancel(ctx)
 					timer = time.AfterFunc(time.Duration(rq.ExtT), cancel)
